@@ -261,6 +261,53 @@ def check_C02(report, tier, seed, replay=None):
                   b'require ["imap4flags"]; if hasflag {}', b"text:" + b"\n" * 3000, b"/*" * 2000, b'"' + b"\\" * 1001,
                   b"if " + b"not " * 300 + b"true {}", b"if anyof(" * 100, b"{" * 500, b"a" * 5000]:
             one("special", t)
+        # the same bytes through parse_file and as text: a file holding them gets exactly the verdict, error text and error
+        # position parse(bytes) gets; a str (bytes that are not UTF-8 arrive as lone surrogates) gets a verdict too; no call raises
+        import os
+        import tempfile
+        from sievelib.parser import Parser
+        samples = [b"", b"keep;", b"keep;\rstop;\rfoo;\r", b"\xef\xbb\xbfkeep;", b"# caf\xe9\nkeep;", b'fileinto "caf\xe9";',
+                   b"keep;\n# \xc3", b"\xff\x00\xfe", b'require "fileinto";\r\nfileinto "a\r\nb";\r\n', b"if true {\r\n  foo;\r\n}",
+                   b'keep "\xff";', b"text:\r\nx\r\n.\r\n"]
+        for i in range(60 if tier == "quick" else 1500):
+            toks, needs = G.gen_script(rng, avoid_optpos=True)
+            samples.extend(byte_mutants(rng, G.render_layout(rng, toks), 1))
+        fd, path = tempfile.mkstemp(prefix="c02_", suffix=".sieve")
+        os.close(fd)
+        try:
+            for t in samples:
+                ref = Parser()
+                ok = ref.parse(t)
+                want = (ok, None if ok else ref.error, None if ok else ref.error_pos)
+                with open(path, "wb") as f:
+                    f.write(t)
+                report.case(("file", t), len(t) >= 2, {"kind": "parse_file", "input": repr(t)[:120]})
+                report.count("kind:parse_file")
+                desc = {"property": "C02", "input": hx(t), "text": repr(t), "through": "parse_file"}
+                try:
+                    pf = Parser()
+                    okf = pf.parse_file(path)
+                    got = (okf, None if okf else pf.error, None if okf else pf.error_pos)
+                except Exception as e:  # noqa
+                    report.violation("parse_file raised %s: %s on a file holding %r" % (type(e).__name__, e, t), desc)
+                    continue
+                if got != want:
+                    report.violation("parse_file and parse disagree on %r: file %r, bytes %r" % (t, got, want), desc)
+                    continue
+                report.count("kind:parse-text")
+                try:
+                    ps = Parser()
+                    oks = ps.parse(t.decode("utf-8", "surrogateescape"))
+                except Exception as e:  # noqa
+                    report.violation("parse raised %s: %s on the text %r" % (type(e).__name__, e, t.decode("utf-8", "surrogateescape")),
+                                     dict(desc, through="parse(str)"))
+                    continue
+                if oks is not True and oks is not False:
+                    report.violation("parse returned %r on a text" % (oks,), dict(desc, through="parse(str)"))
+                elif oks is False and not (isinstance(ps.error, str) and ps.error.startswith("line ")):
+                    report.violation("parse(str) returned False with error %r" % (ps.error,), dict(desc, through="parse(str)"))
+        finally:
+            os.unlink(path)
     finally:
         Lexer.scan = orig_scan
     drv.close()
